@@ -12,7 +12,8 @@
 use num_bigint::BigInt;
 use num_traits::{One, Zero};
 use yui::{EisenInt, EucRing, EucRingOps, GaussInt, Ratio, FF, FF2};
-use yui_matrix::dense::snf::{snf, snf_in_place};
+mod snf_mut;
+use snf_mut::{snf, snf_in_place};
 use yui_matrix::dense::Mat;
 use yui_matrix::MatTrait;
 use yui_verif_harness::*;
@@ -126,7 +127,7 @@ where
     for<'a> &'a R: EucRingOps<R>,
 {
     let a: Mat<R> = parse_mat(m, n, toks);
-    let one = |r: &yui_matrix::dense::snf::SnfResult<R>| {
+    let one = |r: &snf_mut::SnfResult<R>| {
         let fs: Vec<String> = r.factors().iter().map(|x| x.show()).collect();
         format!(
             "{} | {} | {} | {} | {} | {} | {}",
@@ -470,7 +471,7 @@ fn main() {
         Mode::Gen { seed, thorough, out } => {
             let mut o = Out::new(&out);
             let mut r = Rng::new(seed);
-            let s = if thorough { 10 } else { 3 };
+            let s = if thorough { 6 } else { 1 };
             let small: &[u64] = &[0, 1, 1, 2, 3, 3, 4, 5, 5];
             let tiny: &[u64] = &[1, 1, 3, 5];
             let bigk: &[u64] = &[6, 7, 3];
@@ -502,11 +503,7 @@ fn main() {
                 Plan { ring: "ebig", fam: Fam::Eisen, count: 20 * s, maxdim: 3, kinds: bigk, bits: 60, rational: false },
                 Plan { ring: "ebig", fam: Fam::Eisen, count: 3 * s, maxdim: 2, kinds: bigk, bits: 400, rational: false },
             ];
-            // (key, seq, case, result): the lines of a plan are spread evenly over the whole case file, so that the
-            // few expensive plans (big entries) do not end up in one shard of the model run
-            let mut lines: Vec<(f64, usize, String, String)> = vec![];
             for p in plans.iter() {
-                let start = lines.len();
                 for k in 0..p.count {
                     // shapes: every (m, n) in 0..=maxdim is visited systematically, then random
                     let d = p.maxdim + 1;
@@ -538,8 +535,7 @@ fn main() {
                     for fl in subsets {
                         let c = format!("snf {} {} {}", p.ring, flags_str(fl), body);
                         let res = run_case(&c);
-                        let sq = lines.len();
-                        lines.push((0.0, sq, c, res));
+                        o.case(&c, &res);
                     }
                     // the implementation's own certificate, for the verified checker
                     let tr: Vec<&str> = toks.iter().map(|s| s.as_str()).collect();
@@ -549,18 +545,9 @@ fn main() {
                         guarded(|| dispatch!(ring, make_chk, ring, minors, m, n, &tr)).flatten();
                     if let Some(c) = chk {
                         let res = run_case(&c);
-                        let sq = lines.len();
-                        lines.push((0.0, sq, c, res));
+                        o.case(&c, &res);
                     }
                 }
-                let len = lines.len() - start;
-                for (j, l) in lines[start..].iter_mut().enumerate() {
-                    l.0 = (j as f64 + 0.5) / (len as f64);
-                }
-            }
-            lines.sort_by(|a, b| a.0.partial_cmp(&b.0).unwrap().then(a.1.cmp(&b.1)));
-            for (_, _, c, res) in lines.iter() {
-                o.case(c, res);
             }
             o.finish();
         }
